@@ -4,6 +4,7 @@ import (
 	"fmt"
 	"go/token"
 	"strconv"
+	"strings"
 
 	"golang.org/x/tools/go/ssa"
 
@@ -144,7 +145,11 @@ func c04OptionalCount(c *Ctx, cl *cmdLayout, pos string) {
 		}
 		return ""
 	}
-	if why := walk(normalise(cl.encP)); why != "" {
+	encP := cl.encP
+	if cl.andx && len(encP) > 0 && encP[0].Kind == "nested" && strings.Contains(encP[0].Type, "AndX") {
+		encP = encP[1:] // the AndX block emitted through AndX.Marshal(): already counted above
+	}
+	if why := walk(normalise(encP)); why != "" {
 		c.NotDecided(rule, key, pos, "the encoder's parameter layout has no constant size: "+why)
 		return
 	}
